@@ -450,6 +450,12 @@ class Flow:
             cont = self._walk_block(b, env, fs, record=rec, node=node)
             self.sites.extend(rec)
             if cont and any(s["to"] == self.fn.exit for s in b["succ"]):
+                # facts/env on the edge(s) into the exit block (the branch just taken counts)
+                into = [(e2, f2) for (to, e2, f2, lab, ck) in self._succ(b, dict(env), set(fs)) if to == self.fn.exit]
+                if not into:
+                    continue
+                fs = set.intersection(*[set(f2) for (_, f2) in into]) if len(into) > 1 else set(into[0][1])
+                env = into[0][0] if len(into) == 1 else env
                 last = b["ev"][-1] if b["ev"] else None
                 kind = "fall"
                 x = None
